@@ -206,7 +206,7 @@ def prop_history(case, ctx):
 
 
 def custom(tier, hseed, shard, nshards, stats):
-    n_examples = 40 if tier == "quick" else 400
+    n_examples = 80 if tier == "quick" else 500
     seeded_ops = [op for op in ac.OPS if ac.build(op, 101, 0).seed_kw is not None]
     all_ops = list(ac.OPS)
 
